@@ -139,7 +139,7 @@ def _serialize_report_dict(report_dict: Dict[str, Any]) -> str:
     if the dictionary values are not JSON-serializable
     """
     try:
-        report_str = dump_json_with_numpy(report_dict)
+        report_str = dump_json_with_numpy(report_dict, strict=True)
         assert sys.getsizeof(report_str) < 50_000
         return report_str
     except TypeError as e:
